@@ -52,7 +52,7 @@ def RULE(tier):
     )
 
 
-KINDS = ["array", "array2", "bag", "delayed", "frame"]
+KINDS = ["array", "array2", "array3", "bag", "delayed", "frame"]
 
 
 def make(kind, tag, dep=None):
@@ -69,6 +69,14 @@ def make(kind, tag, dep=None):
 
         base = dep if dep is not None else da.from_array(np.arange(4), chunks=2, name=f"src2-{tag}")
         return base.map_blocks(Rec(tag), dtype=base.dtype, meta=np.array((), dtype=base.dtype))[::-1].rechunk(((1, 3),))[::-1].rechunk(2)
+    if kind == "array3":  # a contracting Blockwise layer with concatenate=True (map_blocks dropping a multi-chunk axis)
+        import dask.array as da
+
+        if dep is not None:
+            return dep.map_blocks(Rec(tag), dtype=dep.dtype, meta=np.array((), dtype=dep.dtype))
+        base = da.from_array(np.arange(8).reshape(2, 4), chunks=(1, 2), name=f"src3-{tag}")
+        rec = base.map_blocks(Rec(tag), dtype=base.dtype, meta=np.array((), dtype=base.dtype))
+        return rec.map_blocks(_rowsum, drop_axis=1, dtype=base.dtype, meta=np.array((), dtype=base.dtype))
     if kind == "bag":
         import dask.bag as db
 
@@ -91,6 +99,21 @@ def make(kind, tag, dep=None):
         base = dfh.build(pdf, (2, 2))
         return base.map_partitions(Rec(tag), meta=pdf.iloc[:0])
     raise ValueError(kind)
+
+
+def _rowsum(b):
+    import numpy as np
+
+    return np.asarray(b).sum(axis=1)
+
+
+def nrec(kind, dep=False):
+    """number of records one full computation of a collection of this kind makes per tag"""
+    if kind == "delayed":
+        return 1
+    if kind == "array3":
+        return 2 if dep else 4
+    return 2
 
 
 def value_of(x):
@@ -243,7 +266,7 @@ def run_case(case, ctx):
                 if not cpos or not ppos:
                     return ("nothing-recorded", f"parent records {len(ppos)}, child records {len(cpos)}")
                 # the parents' own run: the LAST record of the first complete parent computation precedes every child record
-                need = len(ptags) * (1 if kp == "delayed" else 2)
+                need = len(ptags) * nrec(kp)
                 first_complete = ppos[need - 1] if len(ppos) >= need else None
                 if first_complete is None or min(cpos) < first_complete:
                     return ("child-ran-before-parents-finished", f"child record at {min(cpos)} before all {need} parent records")
@@ -281,7 +304,7 @@ def run_case(case, ctx):
             cp = checkpoint(*colls, split_every=split_every)
             z = delayed(Rec("Z"))(cp)
             ptags = set().union(*[tags_of(k, "AB"[i]) for i, k in enumerate(kinds)])
-            need = sum(len(tags_of(k, "x")) * (1 if k == "delayed" else 2) for k in kinds)
+            need = sum(len(tags_of(k, "x")) * nrec(k) for k in kinds)
 
             def judge(log, vals):
                 if vals[0] is not None or vals[1] is not None:
